@@ -1,6 +1,7 @@
 import TpmVerif.Base.Trace
 import TpmVerif.Check.C16
 import TpmVerif.Check.C18
+import TpmVerif.Check.C19
 import TpmVerif.Check.C20
 /-! Line-protocol driver: `tpmmodel <Cxx> <trace file>`; prints one `MISMATCH` line per disagreement and a summary. -/
 open TpmVerif
@@ -8,6 +9,7 @@ open TpmVerif
 def checkers : List (String × (List Line → Report)) :=
   [ ("C16", Check.C16.check),
     ("C18", Check.C18.check),
+    ("C19", Check.C19.check),
     ("C20", Check.C20.check) ]
 
 def main (args : List String) : IO UInt32 := do
